@@ -12,6 +12,7 @@ import (
 	"fmt"
 	"math/rand"
 	"sync"
+	"sync/atomic"
 	"testing"
 	"time"
 
@@ -40,6 +41,11 @@ type c25Chan struct {
 	mu      sync.Mutex
 	epoch   string
 	closed  bool
+	// gate between the two phases of keyedWritePublication: the library calls Config.GetChannelBatchConfig
+	// after its unlocked admission check and before its locked enqueue section
+	parkArm atomic.Bool
+	parked  chan struct{}
+	release chan struct{}
 }
 
 func (c *c25Chan) epochNow() string {
@@ -74,6 +80,16 @@ func c25NewEnv(t *testing.T) *c25Env {
 	node, err := New(Config{
 		LogLevel:   LogLevelNone,
 		LogHandler: func(LogEntry) {},
+		GetChannelBatchConfig: func(ch string) ChannelBatchConfig {
+			e.mu.Lock()
+			c := e.chans[ch]
+			e.mu.Unlock()
+			if c != nil && c.parkArm.CompareAndSwap(true, false) {
+				c.parked <- struct{}{}
+				<-c.release
+			}
+			return ChannelBatchConfig{}
+		},
 		SharedPoll: SharedPollConfig{GetSharedPollChannelOptions: func(ch string) (SharedPollChannelOptions, bool) {
 			e.mu.Lock()
 			c, ok := e.chans[ch]
@@ -173,7 +189,11 @@ type c25Scn struct {
 	ndelta  int
 	npush   int
 	finding string
+	inPark  int // broadcasts held between the two phases of keyedWritePublication (0 or 1): they precede every later one in the model's list
+	nPark   int
 }
+
+func (s *c25Scn) deliverNow() string { return vApp("ADeliver", vNat(s.inPark), "true") }
 
 func (s *c25Scn) connect() {
 	tr := newTestTransport(func() {})
@@ -219,6 +239,9 @@ func (s *c25Scn) onPub(p *protocol.Publication) string {
 		return vApp("PRemoved", vNat(k))
 	}
 	s.npush++
+	if !s.tracked[k] {
+		s.finding = "keyed-push-for-untracked-key"
+	}
 	raw := p.Data
 	if s.json {
 		var str string
@@ -499,7 +522,7 @@ func (s *c25Scn) doRespond(removed bool) {
 	s.waitApplied()
 	pushes := s.drain()
 	s.act(vApp("APollResp", "0%nat", vNat(int(bv)), vBool(prev)), nil, fmt.Sprintf("backend answers k%d: version %d, prev_data=%v (request had version %d)", k, bv, prev, call.reqv))
-	s.act(vApp("ADeliver", "0%nat", "true"), pushes, "  (broadcast of the response)")
+	s.act(s.deliverNow(), pushes, "  (broadcast of the response)")
 	s.resume()
 }
 
@@ -549,7 +572,82 @@ func (s *c25Scn) doPublish(k int, flip bool) {
 		s.bad = "unsubscribe push without an epoch change"
 	}
 	s.act(vApp("APublish", vNat(k), vNat(int(v))), nil, fmt.Sprintf("publish k%d version %d", k, v))
-	s.act(vApp("ADeliver", "0%nat", "true"), rest, "  (broadcast of the publication)")
+	s.act(s.deliverNow(), rest, "  (broadcast of the publication)")
+}
+
+// A SharedPollPublish whose broadcast to the connection is held between the unlocked admission check and
+// the locked enqueue section of keyedWritePublication while the connection untracks / is revoked /
+// re-tracks / receives other broadcasts; then it resumes. In the model: APublish now, ADeliver later.
+func (s *c25Scn) doPublishParked(k int) {
+	if s.inPark > 0 || !s.sub {
+		return
+	}
+	s.maxV[k] += 1 + uint64(s.r.Intn(2))
+	v := s.maxV[k]
+	key := fmt.Sprintf("k%d", k)
+	s.cc.parkArm.Store(true)
+	done := make(chan error, 1)
+	go func() {
+		done <- s.e.node.SharedPollPublish(context.Background(), s.ch, key, v, s.epoch, c25Doc(k, v, s.json))
+	}()
+	select {
+	case err := <-done:
+		// the first check did not admit it (key not tracked by the connection): nothing was held
+		s.cc.parkArm.Store(false)
+		if err != nil {
+			s.bad = "publish: " + err.Error()
+			return
+		}
+		pushes := s.drain()
+		s.act(vApp("APublish", vNat(k), vNat(int(v))), nil, fmt.Sprintf("publish k%d version %d", k, v))
+		s.act(s.deliverNow(), pushes, "  (broadcast of the publication)")
+		return
+	case <-s.cc.parked:
+	case <-time.After(10 * time.Second):
+		s.bad = "parked publish neither returned nor reached the gate"
+		return
+	}
+	// what the first phase saw of deltaReady
+	dp1 := false
+	s.client.mu.RLock()
+	if s.client.keyed != nil {
+		if ks, ok := s.client.keyed.trackedKeys[s.ch][key]; ok {
+			dp1 = ks.deltaReady
+		}
+	}
+	s.client.mu.RUnlock()
+	s.nPark++
+	s.act(vApp("APublish", vNat(k), vNat(int(v))), nil, fmt.Sprintf("publish k%d version %d: its broadcast is held between the admission check and the enqueue (deltaReady seen: %v)", k, v, dp1))
+	s.inPark = 1
+	n := 1 + s.r.Intn(3)
+	for j := 0; j < n && s.bad == "" && s.sub; j++ {
+		x := s.r.Intn(100)
+		switch {
+		case x < 35:
+			s.doUntrack(k)
+		case x < 50:
+			s.doRevoke(k)
+		case x < 70:
+			s.doTrack(k, s.held[k] == 0 || s.r.Intn(2) == 0)
+		case x < 85:
+			s.doPublish(k, false)
+		case x < 92 && s.pending != nil:
+			s.doRespond(false)
+		default:
+			s.doNotify(k)
+		}
+	}
+	s.cc.release <- struct{}{}
+	select {
+	case err := <-done:
+		if err != nil {
+			s.bad = "publish: " + err.Error()
+		}
+	case <-time.After(10 * time.Second):
+		s.bad = "parked publish did not return"
+	}
+	s.inPark = 0
+	s.act(vApp("ADeliver", "0%nat", vBool(dp1)), s.drain(), "  (the held broadcast resumes)")
 }
 
 func (s *c25Scn) doRevoke(k int) {
@@ -574,7 +672,7 @@ func c25NewScn(e *c25Env, r *rand.Rand, name string, json, keep bool) *c25Scn {
 		ch = name + "_j"
 	}
 	s := &c25Scn{e: e, r: r, ch: ch, syncCh: name + "_sync", json: json, keep: keep}
-	s.cc = &c25Chan{keep: keep, entered: make(chan *c25Call, 64)}
+	s.cc = &c25Chan{keep: keep, entered: make(chan *c25Call, 64), parked: make(chan struct{}, 1), release: make(chan struct{})}
 	e.mu.Lock()
 	e.chans[ch] = s.cc
 	e.mu.Unlock()
@@ -702,8 +800,10 @@ func TestVerifC25(t *testing.T) {
 					s.doUntrack(k)
 				case x < 72:
 					s.doNotify(k)
-				case x < 92:
+				case x < 80:
 					s.doPublish(k, false)
+				case x < 92:
+					s.doPublishParked(k)
 				case x < 96:
 					s.doRevoke(k)
 				default:
@@ -726,6 +826,9 @@ func TestVerifC25(t *testing.T) {
 		}
 		if i == 0 {
 			class += "/corpus-prevdata-race"
+		}
+		if s.nPark > 0 {
+			class += "+held-broadcast"
 		}
 		if s.bad != "" {
 			t.Errorf("case %d (%s): driver problem: %s", i, class, s.bad)
